@@ -210,7 +210,7 @@ def family_checks(run, tier):
                 o()
                 steps = []
                 for _ in range(5):
-                    choice = rnd.randrange(5)
+                    choice = rnd.randrange(6)
                     steps.append(choice)
                     if choice == 0:
                         res.write_raw(copy.deepcopy(rnd.choice(docs)))      # outside writer, kinds may change
@@ -220,6 +220,22 @@ def family_checks(run, tier):
                             o["new"] = copy.deepcopy(rnd.choice(docs_d + docs_l))
                         else:
                             o.append(copy.deepcopy(rnd.choice(docs_d + docs_l)))
+                    elif choice == 5:
+                        # the value is itself a node of ANOTHER document (other class family / backend): it must be
+                        # converted into this root's family, not adopted
+                        others = [s2 for s2 in env.matrix() if s2.name != spec.name]
+                        s2 = rnd.choice(others)
+                        r2 = s2.new_resource()
+                        try:
+                            r2.write_raw({"n": {"b": [1, {"c": []}]}, "l": [[{"x": {}}]]} if s2.kind == "d" else [{"b": [1, {"c": []}]}, [[{"x": {}}]]])
+                            src = r2.new_object()
+                            node = src["n" if s2.kind == "d" else 0] if rnd.random() < 0.7 else src
+                            if spec.kind == "d":
+                                o["foreign"] = node
+                            else:
+                                o.append(node)
+                        finally:
+                            r2.dispose()
                     elif choice == 2:
                         o.reset(copy.deepcopy(rnd.choice(docs)))
                     elif choice == 3 and spec.strategy:
@@ -256,7 +272,7 @@ def check_C18(tier):
                        "writer stored the pre-state (Attr!Ext): result / exception class, backend content, collection "
                        "content and identity of the object's attributes; reflection: every instance attribute present after "
                        "construction must be protected; type walk of the in-memory tree (all 18 classes) after random "
-                       "operation / reload / buffered-context sequences")
+                       "operation / reload / buffered-context sequences, incl. assigning nodes of documents of other classes / backends")
     run.assumptions += ["writing an attribute that is an existing class attribute (method name) is unspecified and not asserted",
                         "Redis/MongoDB/Zarr on fakes"]
     cfg = tlc.cfg_text(constants={"Names": '{"ord", "prot", "dun", "cls"}', "Class": "<- MCClass"},
